@@ -852,7 +852,7 @@ func (w *W) execAdapter(task int, op *scen.Op) {
 		if h == nil {
 			return
 		}
-		rec := logslog.NewRecord(w.timeOf(op.T), logslog.Level(op.Lvl), op.Msg, 0)
+		rec := logslog.NewRecord(w.timeOf(op.T), logslog.Level(op.Lvl), rawMsg(op), 0)
 		for i := range op.Args {
 			rec.AddAttrs(w.stdAttr(&op.Args[i]))
 		}
@@ -879,7 +879,7 @@ func (w *W) execAdapter(task int, op *scen.Op) {
 			as = append(as, w.stdAttr(&op.Args[i]))
 		}
 		w.logDepth[task]++
-		lg.Log(context.Background(), logslog.Level(op.Lvl), op.Msg, as...)
+		lg.Log(context.Background(), logslog.Level(op.Lvl), rawMsg(op), as...)
 		w.logDepth[task]--
 	case "bridge_print":
 		bl := w.bridges[op.L]
@@ -889,18 +889,18 @@ func (w *W) execAdapter(task int, op *scen.Op) {
 		w.logDepth[task]++
 		switch op.Kind {
 		case "println":
-			bl.Println(op.Msg)
+			bl.Println(rawMsg(op))
 		case "printf":
-			bl.Printf("%s", op.Msg)
+			bl.Printf("%s", rawMsg(op))
 		case "write":
-			n, err := bl.Writer().Write([]byte(op.Msg))
+			n, err := bl.Writer().Write([]byte(rawMsg(op)))
 			r := map[string]any{"n": n}
 			if err != nil {
 				r["err"] = err.Error()
 			}
 			w.ret(task, r)
 		default:
-			bl.Print(op.Msg)
+			bl.Print(rawMsg(op))
 		}
 		w.logDepth[task]--
 	}
@@ -916,4 +916,12 @@ func fixedPC() uintptr {
 	var pcs [1]uintptr
 	runtime.Callers(1, pcs[:])
 	return pcs[0]
+}
+
+// rawMsg: the message of an op; X carries messages that are not valid UTF-8 (a JSON document cannot)
+func rawMsg(op *scen.Op) string {
+	if len(op.X) > 0 {
+		return string(op.X)
+	}
+	return op.Msg
 }
